@@ -327,6 +327,27 @@ def run(ctx):
                 survivor.append(src)
         check_value(ctx, "DigitalWaveform(shared properties, sharers collected)", survivor,
                     lambda x: (tuple(s_.name for s_ in x.signals), list(x.extended_properties.items()), x.data.tobytes()))
+    # names that arrive AFTER they were read (every route by which NI_LineNames can appear, change or vanish on a waveform whose name
+    # cache is filled): what the original shows must be what its copies show
+    name_obs = lambda x: (tuple(s_.name for s_ in x.signals), list(x.extended_properties.items()), x.data.tobytes())
+    for nsig in (1, 2, 3):
+        for had in (False, True):
+            for route in ("append-waveform", "append-list", "setitem", "update-dict", "update-pairs-iterator", "setdefault", "merge-dictionary", "del", "pop", "clear",
+                          "rename-then-append"):
+                props = {H.LINE_NAMES: ", ".join(f"a{j}" for j in range(nsig))} if had else {}
+                w_ = DigitalWaveform(2, nsig, extended_properties=props)
+                _ = [s_.name for s_ in w_.signals]               # fill the cache
+                newv = ", ".join(f"n{j}" for j in range(nsig))
+                src = DigitalWaveform(1, nsig, extended_properties={H.LINE_NAMES: newv, "other": "1"})
+                ep = w_.extended_properties
+                r = outcome(lambda: {"append-waveform": lambda: w_.append(src), "append-list": lambda: w_.append([src, src]),
+                                     "setitem": lambda: ep.__setitem__(H.LINE_NAMES, newv), "update-dict": lambda: ep.update({H.LINE_NAMES: newv}),
+                                     "update-pairs-iterator": lambda: ep.update(iter([(H.LINE_NAMES, newv)])), "setdefault": lambda: ep.setdefault(H.LINE_NAMES, newv),
+                                     "merge-dictionary": lambda: ep._merge(src.extended_properties), "del": lambda: ep.__delitem__(H.LINE_NAMES),
+                                     "pop": lambda: ep.pop(H.LINE_NAMES, None), "clear": lambda: ep.clear(),
+                                     "rename-then-append": lambda: (setattr(w_.signals[0], "name", "r"), w_.append(src))}[route]())
+                ctx.count("names-after-read", route)
+                check_value(ctx, f"DigitalWaveform(names read, then {route}; NI_LineNames {'present' if had else 'absent'} before)", w_, name_obs)
     for r in world.records:
         if r["line"].startswith("wpickle") and r["err"] is not None:
             ctx.violation(what="pickle/deepcopy failed in history", line=r["line"], observed=r["err"], required="a copy")
